@@ -855,14 +855,17 @@ def _realify(x):
     return np.block([[x.real, -x.imag], [x.imag, x.real]])
 
 
-def _class_generators(rng, cls, n1, n2, k_indep, n_dep):
-    """K well-conditioned independent generators of the class + dependent combinations; returns (field, array, ambient dimension)"""
-    def sym_basis(n, cplx=False):
+def _class_generators(rng, cls, n1, n2, k_indep, n_dep, near=None, scale=1.0):
+    """generators of a structure class: `k_indep` well-conditioned independent ones (coordinate rows orthonormal, scaled in [1,2]),
+    `n_dep` exact combinations of them and, if `near` is given, one more generator that is a small combination (|c| <= 0.3) of them plus
+    10^-near times a new unit direction of the class (smallest singular value of the generator list ~ 10^-near: to be *kept*, the
+    library drops singular values <= 1e-10 only); everything multiplied by `scale`.  Returns (field, array, ambient dimension, rank)."""
+    def sym_basis(n):
         out = []
         for i in range(n):
             for j in range(i, n):
                 e = np.zeros((n, n)); e[i, j] = 1; e[j, i] = 1
-                out.append(e)
+                out.append(e / np.linalg.norm(e))
         return out
     if cls in ('R', 'C(real)', 'C', 'R_c'):
         unit = [np.eye(n1 * n2)[i].reshape(n1, n2) for i in range(n1 * n2)]
@@ -873,32 +876,38 @@ def _class_generators(rng, cls, n1, n2, k_indep, n_dep):
         unit = []
         for i in range(n):
             for j in range(i, n):
-                e = np.zeros((n, n), dtype=complex); e[i, j] = 1; e[j, i] = 1; unit.append(e)
+                e = np.zeros((n, n), dtype=complex); e[i, j] = 1; e[j, i] = 1; unit.append(e / np.linalg.norm(e))
                 if i != j:
-                    e = np.zeros((n, n), dtype=complex); e[i, j] = 1j; e[j, i] = -1j; unit.append(e)
+                    e = np.zeros((n, n), dtype=complex); e[i, j] = 1j; e[j, i] = -1j; unit.append(e / np.linalg.norm(e))
     unit = np.stack(unit)
     over_c = cls in ('C(real)', 'C', 'C_T', 'C_T(real)')
     cplx_entries = cls in ('C', 'C_T', 'R_c', 'R_cT')
     if cls in ('R_c', 'R_cT'):
         unit = np.concatenate([unit, 1j * unit])       # real basis of the complex matrices / complex symmetric matrices
     amb = unit.shape[0]
-    k = min(k_indep, amb)
-    if over_c and cplx_entries:
-        q = np.linalg.qr(rng.normal(size=(amb, amb)) + 1j * rng.normal(size=(amb, amb)))[0][:k]
-    else:
-        q = np.linalg.qr(rng.normal(size=(amb, amb)))[0][:k]
-    q = q * rng.uniform(0.5, 2, size=(k, 1))
+    k = min(k_indep, amb - (1 if near is not None else 0))
+    cplx = over_c and cplx_entries
+    qf = np.linalg.qr(rng.normal(size=(amb, amb)) + (1j * rng.normal(size=(amb, amb)) if cplx else 0))[0]
+    q = qf[:k] * rng.uniform(1, 2, size=(k, 1))
     gens = np.tensordot(q, unit, axes=(1, 0))
+    extra = []
     if n_dep:
-        c = rng.normal(size=(n_dep, k))
-        if over_c and cplx_entries:
-            c = c + 1j * rng.normal(size=(n_dep, k))
-        gens = np.concatenate([gens, np.tensordot(c, gens, axes=(1, 0))])
+        c = rng.normal(size=(n_dep, k)) + (1j * rng.normal(size=(n_dep, k)) if cplx else 0)
+        extra.append(np.tensordot(c, gens, axes=(1, 0)))
+    rank = k
+    if near is not None:
+        c = rng.uniform(-0.3, 0.3, size=(1, k)) / max(1, np.sqrt(k))
+        u = np.tensordot(qf[k:k + 1], unit, axes=(1, 0))
+        extra.append(np.tensordot(c, gens, axes=(1, 0)) + 10.0 ** -near * u)
+        rank = k + 1
+    if extra:
+        gens = np.concatenate([gens] + extra)
         gens = gens[rng.permutation(len(gens))]
+    gens = gens * scale
     if cls in ('R_T', 'C_T(real)', 'R', 'C(real)'):
         gens = np.ascontiguousarray(gens.real)
     field = 'complex' if over_c else 'real'
-    return field, gens, amb, k
+    return field, gens, amb, rank
 
 
 def _rank(a, tol=1e-8):
@@ -908,63 +917,109 @@ def _rank(a, tol=1e-8):
     return int((s > tol).sum())
 
 
-def probe_decomposition(ctx):
+_AMBIENT = {'R_T': lambda a, b: a * (a + 1) // 2, 'C_T(real)': lambda a, b: a * (a + 1) // 2, 'C_T': lambda a, b: a * (a + 1) // 2,
+            'R': lambda a, b: a * b, 'C(real)': lambda a, b: a * b, 'C': lambda a, b: a * b, 'C_H': lambda a, b: a * a,
+            'R_cT': lambda a, b: a * (a + 1), 'R_c': lambda a, b: 2 * a * b}
+_EXPECT = {'R_T': 'R_T', 'C_T(real)': 'C_T', 'R': 'R', 'C(real)': 'C', 'C_H': 'C_H', 'R_cT': 'R_cT', 'R_c': 'R_c', 'C_T': 'C_T', 'C': 'C'}
+
+
+def _check_decomposition(ctx, cls, n1, n2, field, gens, amb, k, tag, extra_replay):
+    """the property on one call of get_matrix_orthogonal_basis; all comparisons are relative to the norms of the generators, so that
+    small generators and nearly dependent ones (above the library's singular-value threshold 1e-10) are judged like O(1) ones"""
     from numqi.matrix_space import get_matrix_orthogonal_basis
+    replay = dict(op='get_matrix_orthogonal_basis', cls=cls, field=field, shape=list(gens.shape), rank=k, case=tag,
+                  generators_re=gens.real.tolist(), generators_im=(gens.imag.tolist() if np.iscomplexobj(gens) else None), **extra_replay)
+    try:
+        b, bo, ch = get_matrix_orthogonal_basis(gens, field)
+    except Exception as e:
+        ctx.fail('decomp-exception', f'get_matrix_orthogonal_basis raised {type(e).__name__}: {e} on a {cls} subspace {gens.shape} ({tag})', replay)
+        return
+    if ch != _EXPECT[cls]:
+        ctx.fail('decomp-class', f'space_char {ch} for a {cls} input ({tag})', replay); return
+    blk = ch in ('R_c', 'R_cT')       # the representation in which the returned matrices live
+    inp = np.stack([_realify(x) for x in gens]) if blk else gens
+    sz = int(np.prod(inp.shape[1:]))
+    vb = b.reshape(b.shape[0], sz); vo = bo.reshape(bo.shape[0], sz); vi = inp.reshape(inp.shape[0], sz)
+    real_field = field == 'real'
+
+    def inner(x, y):
+        g = x.conj() @ y.T
+        return g.real if real_field else g
+
+    def as_real(v):
+        return np.concatenate([v.real, v.imag], axis=1) if (real_field and np.iscomplexobj(v)) else v
+    where = f'({cls}, {n1}x{n2}, {tag})'
+    ok = True
+    if b.shape[0] != k:
+        ctx.fail('decomp-rank', f'{b.shape[0]} basis elements for a subspace of dimension {k} {where}', replay); ok = False
+    g = inner(vb, vb)
+    c = g[0, 0].real if g.size else 1.0
+    if g.size and (np.abs(g - c * np.eye(len(g))).max() > 1e-9 or c < 1e-3):
+        ctx.fail('decomp-orthogonal', f'basis not mutually orthogonal with one common norm: max deviation {np.abs(g - c * np.eye(len(g))).max():.3g} {where}', replay); ok = False
+    # span: every generator is reproduced by its projection on the returned basis, relative to its own norm
+    nrm = np.linalg.norm(vi, axis=1)
+    if vb.shape[0]:
+        coef = inner(vb, vi) / c                      # (basis, generators)
+        res = np.linalg.norm(vi - coef.T @ vb, axis=1)
+    else:
+        res = nrm.copy()
+    relres = float((res / nrm).max())
+    if relres > 1e-9:
+        j = int(np.argmax(res / nrm))
+        ctx.fail('decomp-span', f'generator {j} (norm {nrm[j]:.3g}) is not in the span of the returned basis: relative residual {relres:.3g} {where}', replay); ok = False
+    if vo.shape[0]:
+        no = np.linalg.norm(vo, axis=1)
+        if np.abs(inner(vo, vb)).max(initial=0) > 1e-9 * max(1.0, c):
+            ctx.fail('decomp-complement', f'complement not orthogonal to the basis: {np.abs(inner(vo, vb)).max():.3g} {where}', replay); ok = False
+        ov = np.abs(inner(vo, vi)) / (no[:, None] * nrm[None, :])
+        if ov.max(initial=0) > 1e-9:
+            ctx.fail('decomp-complement', f'complement not orthogonal to the input: overlap {ov.max():.3g} relative to the norms {where}', replay); ok = False
+    if b.shape[0] + bo.shape[0] != amb:
+        ctx.fail('decomp-dimension', f'{b.shape[0]} + {bo.shape[0]} != ambient dimension {amb} {where}', replay); ok = False
+    if _rank(as_real(np.concatenate([vb, vo]))) != amb:
+        ctx.fail('decomp-dimension', f'basis and complement together do not span the {amb}-dimensional structured space {where}', replay); ok = False
+    if ok:
+        ctx.probe_ok(('decomp', cls, n1, n2, tag))
+
+
+def probe_decomposition(ctx):
     rng = np.random.default_rng(ctx.np_seed + 10)
-    expect = {'R_T': 'R_T', 'C_T(real)': 'C_T', 'R': 'R', 'C(real)': 'C', 'C_H': 'C_H', 'R_cT': 'R_cT', 'R_c': 'R_c', 'C_T': 'C_T', 'C': 'C'}
     dims = [2, 3, 4, 5]
     reps = 1 if ctx.quick() else 4
-    for cls in expect:
+    for cls in _EXPECT:
         for n1 in dims:
             for n2 in ([n1] if cls not in ('R', 'C(real)', 'C', 'R_c') else ([n1, (n1 % 4) + 2])):
                 for _ in range(reps):
-                    amb0 = {'R_T': n1 * (n1 + 1) // 2, 'C_T(real)': n1 * (n1 + 1) // 2, 'C_T': n1 * (n1 + 1) // 2, 'R': n1 * n2, 'C(real)': n1 * n2, 'C': n1 * n2,
-                            'C_H': n1 * n1, 'R_cT': n1 * (n1 + 1), 'R_c': 2 * n1 * n2}[cls]
+                    amb0 = _AMBIENT[cls](n1, n2)
                     k_indep = int(rng.integers(1, amb0 + 1))
                     n_dep = int(rng.integers(0, 4))
                     field, gens, amb, k = _class_generators(rng, cls, n1, n2, k_indep, n_dep)
-                    replay = dict(op='get_matrix_orthogonal_basis', cls=cls, field=field, shape=list(gens.shape), k_indep=k, n_dep=n_dep,
-                                  generators_re=gens.real.tolist(), generators_im=(gens.imag.tolist() if np.iscomplexobj(gens) else None))
                     assert amb == amb0
-                    try:
-                        b, bo, ch = get_matrix_orthogonal_basis(gens, field)
-                    except Exception as e:
-                        ctx.fail('decomp-exception', f'get_matrix_orthogonal_basis raised {type(e).__name__}: {e} on a {cls} subspace {gens.shape}', replay)
-                        continue
-                    key = ('decomp', cls, n1, n2)
-                    if ch != expect[cls]:
-                        ctx.fail('decomp-class', f'space_char {ch} for a {cls} input', replay); continue
-                    # the representation in which the returned matrices live
-                    blk = ch in ('R_c', 'R_cT')
-                    inp = np.stack([_realify(x) for x in gens]) if blk else gens
-                    sz = int(np.prod(inp.shape[1:]))
-                    vb = b.reshape(b.shape[0], sz); vo = bo.reshape(bo.shape[0], sz); vi = inp.reshape(inp.shape[0], sz)
-                    real_field = field == 'real'
-                    def inner(x, y):
-                        g = x.conj() @ y.T
-                        return g.real if real_field else g
-                    def as_real(v):
-                        return np.concatenate([v.real, v.imag], axis=1) if (real_field and np.iscomplexobj(v)) else v
-                    ok = True
-                    if b.shape[0] != k:
-                        ctx.fail('decomp-rank', f'{b.shape[0]} basis elements for a subspace of dimension {k} ({cls}, {n1}x{n2})', replay); ok = False
-                    g = inner(vb, vb)
-                    c = g[0, 0].real if g.size else 1.0
-                    if g.size and (np.abs(g - c * np.eye(len(g))).max() > 1e-9 or c < 1e-3):
-                        ctx.fail('decomp-orthogonal', f'basis not mutually orthogonal with one common norm: max deviation {np.abs(g - c * np.eye(len(g))).max():.3g} ({cls}, {n1}x{n2})', replay); ok = False
-                    rb, ri, rbi = _rank(as_real(vb)), _rank(as_real(vi)), _rank(as_real(np.concatenate([vb, vi])))
-                    if not (rb == ri == rbi):
-                        ctx.fail('decomp-span', f'span(basis) != span(input): ranks {rb},{ri}, joint {rbi} ({cls}, {n1}x{n2})', replay); ok = False
-                    if vo.shape[0] and np.abs(inner(vo, vb)).max(initial=0) > 1e-9:
-                        ctx.fail('decomp-complement', f'complement not orthogonal to the basis: {np.abs(inner(vo, vb)).max():.3g} ({cls}, {n1}x{n2})', replay); ok = False
-                    if vo.shape[0] and np.abs(inner(vo, vi)).max(initial=0) > 1e-8 * max(1.0, np.abs(vi).max()):
-                        ctx.fail('decomp-complement', f'complement not orthogonal to the input: {np.abs(inner(vo, vi)).max():.3g} ({cls}, {n1}x{n2})', replay); ok = False
-                    if b.shape[0] + bo.shape[0] != amb:
-                        ctx.fail('decomp-dimension', f'{b.shape[0]} + {bo.shape[0]} != ambient dimension {amb} ({cls}, {n1}x{n2})', replay); ok = False
-                    if _rank(as_real(np.concatenate([vb, vo]))) != amb:
-                        ctx.fail('decomp-dimension', f'basis and complement together do not span the {amb}-dimensional structured space ({cls}, {n1}x{n2})', replay); ok = False
-                    if ok:
-                        ctx.probe_ok(key)
+                    _check_decomposition(ctx, cls, n1, n2, field, gens, amb, k, 'exactly dependent', dict(k_indep=k, n_dep=n_dep))
+
+
+def probe_decomposition_graded(ctx):
+    """directions that the library must keep (singular value of the generator list well above its own threshold zero_eps = 1e-10):
+    one generator that is a combination of the others up to 10^-k (k = 3..9), and generators of overall norm 10^-k (k = 3..8;
+    k = 9 for rectangular shapes only, where the symmetric / non-symmetric branch decision, itself an absolute 1e-10 test, is not involved).
+    Smallest singular value >= 6e-10 in every case."""
+    rng = np.random.default_rng(ctx.np_seed + 16)
+    for cls in _EXPECT:
+        shapes = [(2, 2), (3, 3), (2, 3), (4, 3)] if cls in ('R', 'C(real)', 'C', 'R_c') else [(2, 2), (3, 3), (4, 4)]
+        if ctx.quick():
+            shapes = shapes[:3] if cls in ('R', 'C(real)', 'C', 'R_c') else shapes[:2]
+        for n1, n2 in shapes:
+            amb0 = _AMBIENT[cls](n1, n2)
+            for near in range(3, 10):
+                k_indep = int(rng.integers(1, amb0))
+                field, gens, amb, k = _class_generators(rng, cls, n1, n2, k_indep, int(rng.integers(0, 3)), near=near)
+                _check_decomposition(ctx, cls, n1, n2, field, gens, amb, k, f'one generator dependent up to 1e-{near}', dict(near=near))
+            for sc in range(3, 10):
+                if sc == 9 and n1 == n2:
+                    continue
+                k_indep = int(rng.integers(1, amb0 + 1))
+                field, gens, amb, k = _class_generators(rng, cls, n1, n2, k_indep, int(rng.integers(0, 3)), scale=10.0 ** -sc)
+                _check_decomposition(ctx, cls, n1, n2, field, gens, amb, k, f'generators of norm 1e-{sc}', dict(scale_exponent=sc))
 
 
 def _planted_bipartite(rng, dA, dB, N, low_rank, cplx):
@@ -1131,6 +1186,7 @@ def probe_numrange(ctx):
 
 def probe(ctx):
     probe_decomposition(ctx)
+    probe_decomposition_graded(ctx)
     probe_planted(ctx)
     probe_numrange(ctx)
 
@@ -1146,6 +1202,9 @@ def search(ctx, hints):
             if ctx.failures:
                 break
             probe_decomposition(ctx)
+            if ctx.failures:
+                break
+            probe_decomposition_graded(ctx)
             if ctx.failures:
                 break
         if not ctx.failures:
